@@ -117,7 +117,7 @@ def b_histories(tier):
     for name, mk_c, mk_u, argsets in pairs():
         calls = [(e, a, kw) for e in dom for (a, kw) in argsets]
         if len(calls) > 24:
-            calls = calls[::max(1, len(calls) // 24)]
+            calls = trees.thin(calls, 24, seed=len(calls))
         for n in range(1, L + 1):
             for hist in itertools.product(calls, repeat=n):
                 if n == 3 and len({id(h[0]) for h in hist}) < 2:
